@@ -109,7 +109,7 @@ def explore_direct(fn, kwargs=None, budget_s=120.0, query_timeout_ms=30000, max_
     seen = set()
     prefix = []
     while True:
-        if time.time() - w0 > budget_s:
+        if process_time() - t0 > budget_s:  # CPU budget, like the symex driver (wall time is meaningless on a shared machine)
             break
         ctx = DirectCtx(prefix, query_timeout_ms)
         status = "ok"
